@@ -36,6 +36,22 @@ def showOptExpansion : Option Expansion → String
   | some e => showExpansion e
   | none => "-"
 
+/-- the result of an `xp` item: the expansion, then `Expansion::len`, `is_empty`, `split`, `Value::split`
+    of the variable's own value (`-` without a value), and `cok`: the conversions of `Expansion`
+    (`as_ref`, `From<Option<Value>>`, `From<Value>`, `From<&Expansion>`, `into_owned`, `Default`) and
+    `QuotedValue::as_ref` agree with the expansion — the harness checks them on the real code and
+    prints what failed instead -/
+def showExpansionFull (v : Variable) (e : Expansion) : String :=
+  showExpansion e ++ s!";l{e.len};e{if e.isEmpty then 1 else 0};p" ++ ",".intercalate (e.split.map encStr) ++
+    ";v" ++ (match v.value with
+      | some val => ",".intercalate (val.split.map encStr)
+      | none => "-") ++ ";cok"
+
+def showOptExpansionFull (o : Option Variable) (l : Loc) : String :=
+  match o with
+  | some v => showExpansionFull v (v.expand l)
+  | none => "-"
+
 /-- the location at which every observation expands the visible variable: character 4 of the code
     `a⏎b⏎c` that starts on line 3 (hence line 5), reached through one alias substitution -/
 def obsLoc : Loc := .alias 1 "a" 0 (.plain 3 "a\nb\nc" 4)
@@ -112,7 +128,7 @@ def historyGo (names : List Name) (s : VariableSet) (X : SSet) :
     historyGo names s.init X.init rest (observeM s.init .done names :: om) (observeS X.init .done names :: os)
   | .xp n l :: rest, om, os =>
     historyGo names s X rest
-      (observeMT s ("xp(" ++ showOptExpansion ((s.get n).map (·.expand l)) ++ ")") names :: om)
-      (observeST X ("xp(" ++ showOptExpansion ((lookup X n).map (·.expand l)) ++ ")") names :: os)
+      (observeMT s ("xp(" ++ showOptExpansionFull (s.get n) l ++ ")") names :: om)
+      (observeST X ("xp(" ++ showOptExpansionFull (lookup X n) l ++ ")") names :: os)
 
 end YashModel.Variable
